@@ -312,6 +312,12 @@ func (n *QueryNode) Queries(start, stop time.Time) ([]*Query, error) {
 	return queries, nil
 }
 
+// queryResponse is the answer of the server to one query.
+type queryResponse struct {
+	resp *influxdb.Response
+	err  error
+}
+
 // Query InfluxDB and collect batches on batch collector.
 func (n *QueryNode) doQuery(in edge.Edge) error {
 	defer in.Close()
@@ -350,7 +356,28 @@ func (n *QueryNode) doQuery(in edge.Edge) error {
 			q := influxdb.Query{
 				Command: qStr,
 			}
-			resp, err := con.Query(q)
+			// The server may take for ever to answer: stopping the node does not wait for it.
+			resC := make(chan queryResponse, 1)
+			go func() {
+				defer func() {
+					if r := recover(); r != nil {
+						resC <- queryResponse{err: fmt.Errorf("panic while querying: %v", r)}
+					}
+				}()
+				resp, err := con.Query(q)
+				resC <- queryResponse{resp: resp, err: err}
+			}()
+			var resp *influxdb.Response
+			select {
+			case r := <-resC:
+				resp, err = r.resp, r.err
+			case <-n.closing:
+				n.timer.Stop()
+				return nil
+			case <-n.aborting:
+				n.timer.Stop()
+				return errors.New("batch doQuery aborted")
+			}
 			if err != nil {
 				n.diag.Error("error executing query", err)
 				n.timer.Stop()
@@ -740,12 +767,34 @@ func (n *FluxQueryNode) doQuery(in edge.Edge) (err error) {
 			n.diag.StartingBatchQuery(n.query.stmt)
 
 			// Execute query
-			resp, err := con.QueryFluxResponse(influxdb.FluxQuery{
+			// The server may take for ever to answer: stopping the node does not wait for it.
+			fq := influxdb.FluxQuery{
 				Query: n.query.stmt,
 				Org:   n.query.org,
 				OrgID: n.query.orgID,
 				Now:   n.query.Now,
-			})
+			}
+			resC := make(chan queryResponse, 1)
+			go func() {
+				defer func() {
+					if r := recover(); r != nil {
+						resC <- queryResponse{err: fmt.Errorf("panic while querying: %v", r)}
+					}
+				}()
+				resp, err := con.QueryFluxResponse(fq)
+				resC <- queryResponse{resp: resp, err: err}
+			}()
+			var resp *influxdb.Response
+			select {
+			case r := <-resC:
+				resp, err = r.resp, r.err
+			case <-n.closing:
+				n.timer.Stop()
+				return nil
+			case <-n.aborting:
+				n.timer.Stop()
+				return errors.New("batch doQuery aborted")
+			}
 			if err != nil {
 				n.diag.Error("error executing query", err)
 				n.timer.Stop()
